@@ -412,7 +412,78 @@ func c09Scenarios(tier string) []*Scenario {
 		}
 		out = append(out, sc)
 	}
+	out = append(out, c09CrossingShards())
 	return out
+}
+
+// c09CrossingShards (scenario N2): on a sanitizing root with two registry shards, two goroutines make the first use
+// of two tag sets chosen so that the shard of the key as spelled by the caller and the shard of the sanitized key
+// CROSS: (X, Y) for one, (Y, X) for the other. Whatever Subscope locks, it must not wait for a second shard while
+// holding one. (Shard choice is a pure function of the key in the instrumented build - the hash seed is fixed - and
+// is read off the real registry with scratch roots of the same configuration.)
+func c09CrossingShards() *Scenario {
+	sc := &Scenario{Property: "C09", Name: "N2-first-use-of-rewritten-tags-raw-and-sanitized-key-in-crossing-shards"}
+	alnum := tally.ValidCharacters{Ranges: tally.AlphanumericRange, Characters: tally.UnderscoreCharacters}
+	san := func() *tally.SanitizeOptions {
+		return &tally.SanitizeOptions{NameCharacters: alnum, KeyCharacters: alnum, ValueCharacters: alnum, ReplacementCharacter: '_'}
+	}
+	sc.Body = func(x *Run) {
+		rec := &Recorder{NoPoints: true}
+		x.Rec = rec
+		probe := func(tags map[string]string) int {
+			o := scopeOpts(&Recorder{NoPoints: true}, false, false)
+			o.SanitizeOptions = san()
+			r, _ := tally.VerifNewRootScope(o, 0, 2)
+			return tally.VerifShardOf(r.Tagged(tags))
+		}
+		var a, b map[string]string
+		for k := 0; k < 48 && (a == nil || b == nil); k++ {
+			raw := map[string]string{"dc-name": fmt.Sprintf("eu-west-%d", k)}
+			clean := map[string]string{"dc_name": fmt.Sprintf("eu_west_%d", k)}
+			rs, cs := probe(raw), probe(clean)
+			if rs < 0 || cs < 0 {
+				break // the registry has another shape in this tree: the scenario runs with any two tag sets
+			}
+			if rs == 0 && cs == 1 && a == nil {
+				a = raw
+			}
+			if rs == 1 && cs == 0 && b == nil {
+				b = raw
+			}
+		}
+		if a == nil {
+			a = map[string]string{"dc-name": "eu-west-a"}
+		}
+		if b == nil {
+			b = map[string]string{"dc-name": "eu-west-b"}
+		}
+		o := scopeOpts(rec, false, false)
+		o.SanitizeOptions = san()
+		root, _ := tally.VerifNewRootScope(o, 0, 2)
+		var ths []*rt.Thread
+		for i, tg := range []map[string]string{a, b} {
+			i, tg := i, tg
+			ths = append(ths, rt.GoNamed(fmt.Sprintf("user%d", i), func() {
+				root.Tagged(cloneTags(tg)).Counter("c").Inc(int64(1 + i))
+			}))
+		}
+		for _, t := range ths {
+			t.Join()
+		}
+		tally.VerifReportOnce(root)
+		x.Vals["a"], x.Vals["b"] = a["dc-name"], b["dc-name"]
+	}
+	sc.Check = func(x *Run, o *rt.Outcome) (string, string, string) {
+		got := sumCounters(x.Rec.Log, 0, len(x.Rec.Log))
+		clean := func(v interface{}) string {
+			return "c" + tagString(map[string]string{"dc_name": strings.ReplaceAll(fmt.Sprint(v), "-", "_")})
+		}
+		if got[clean(x.Vals["a"])] != 1 || got[clean(x.Vals["b"])] != 2 {
+			return "sum-mismatch", fmt.Sprintf("tag sets dc-name=%v and dc-name=%v first used by two goroutines at once on a sanitizing two-shard root: delivered %v, recorded 1 and 2", x.Vals["a"], x.Vals["b"], got), "viol"
+		}
+		return "", "", "ok"
+	}
+	return sc
 }
 
 // c09RaceScenarios: the whole scope API, recording and reporting used concurrently, free-running under -race.
